@@ -59,8 +59,9 @@ struct SIMDVector<int64_t,simd_abi::avx512> {
         _mm512_store_si512((__m512i*)data,value);
     }
 
-    FASTOR_INLINE int64_t operator[](FASTOR_INDEX i) const {return reinterpret_cast<const int64_t*>(&value)[i];}
-    FASTOR_INLINE int64_t operator()(FASTOR_INDEX i) const {return reinterpret_cast<const int64_t*>(&value)[i];}
+    // read lanes through a store: casting &value to int64_t* violates strict aliasing
+    FASTOR_INLINE int64_t operator[](FASTOR_INDEX i) const {int64_t tmp[Size]; _mm512_storeu_si512((void*)tmp, value); return tmp[i];}
+    FASTOR_INLINE int64_t operator()(FASTOR_INDEX i) const {int64_t tmp[Size]; _mm512_storeu_si512((void*)tmp, value); return tmp[i];}
 
     FASTOR_INLINE void mask_load(const scalar_value_type *a, uint8_t mask, bool Aligned=false) {
 #ifdef FASTOR_HAS_AVX512_MASKS
@@ -435,8 +436,9 @@ struct SIMDVector<int64_t,simd_abi::avx> {
         _mm256_store_si256((__m256i*)data,value);
     }
 
-    FASTOR_INLINE int64_t operator[](FASTOR_INDEX i) const {return reinterpret_cast<const int64_t*>(&value)[i];}
-    FASTOR_INLINE int64_t operator()(FASTOR_INDEX i) const {return reinterpret_cast<const int64_t*>(&value)[i];}
+    // read lanes through a store: casting &value to int64_t* violates strict aliasing
+    FASTOR_INLINE int64_t operator[](FASTOR_INDEX i) const {int64_t tmp[Size]; _mm256_storeu_si256((__m256i*)tmp, value); return tmp[i];}
+    FASTOR_INLINE int64_t operator()(FASTOR_INDEX i) const {int64_t tmp[Size]; _mm256_storeu_si256((__m256i*)tmp, value); return tmp[i];}
 
     FASTOR_INLINE void mask_load(const scalar_value_type *a, uint8_t mask, bool Aligned=false) {
 #ifdef FASTOR_HAS_AVX512_MASKS
@@ -787,8 +789,9 @@ struct SIMDVector<int64_t,simd_abi::sse> {
 #endif
     }
 
-    FASTOR_INLINE int64_t operator[](FASTOR_INDEX i) const {return reinterpret_cast<const int64_t*>(&value)[i];}
-    FASTOR_INLINE int64_t operator()(FASTOR_INDEX i) const {return reinterpret_cast<const int64_t*>(&value)[i];}
+    // read lanes through a store: casting &value to int64_t* violates strict aliasing
+    FASTOR_INLINE int64_t operator[](FASTOR_INDEX i) const {int64_t tmp[Size]; _mm_storeu_si128((__m128i*)tmp, value); return tmp[i];}
+    FASTOR_INLINE int64_t operator()(FASTOR_INDEX i) const {int64_t tmp[Size]; _mm_storeu_si128((__m128i*)tmp, value); return tmp[i];}
 
     FASTOR_INLINE void set(int64_t num) {
         value = _mm_set_epi64x(num,num);
